@@ -263,10 +263,17 @@ class LockFlow:
                     for _, _, rev in body.all_events():
                         if rev.get("k") == "return" and rev.get("e") is not None:
                             atom, pos_ = cond_atoms(rev["e"])
-                            m = re.match(r"^(\w+)\.try_lock\(\)$", atom)
-                            if m and not pos_ and st.g(m.group(1)) is not None:
-                                l, o, kind = st.g(m.group(1))
-                                st = st.setg(m.group(1), l, True)
+                            m = re.match(r"^(?:this->)?(\w+)\.try_lock\(\)$", atom)
+                            gname = m.group(1) if m else None
+                            if m and st.g(gname) is None:
+                                # a named function object holding a reference to the guard (its only constructor argument)
+                                caps = [strip(c) for c in (strip(args[0]).get("captures") or [])]
+                                caps = [c for c in caps if isinstance(c, dict) and c.get("k") == "var"]
+                                if len(caps) == 1:
+                                    gname = caps[0].get("name")
+                            if m and not pos_ and st.g(gname) is not None:
+                                l, o, kind = st.g(gname)
+                                st = st.setg(gname, l, True)
                                 if l is not None:
                                     st = st.hold(l)
                 return st
